@@ -68,6 +68,8 @@ func c18(w *core.World, r *core.Report) {
 	ruleResolvedKeysWin(w, r)
 	r.Rule("R18.12", "a refusal is published before the unit channel is closed: the sender that sees the closed channel ends cleanly, so the parser's error must already be the replay's result", 1)
 	ruleRefusalPublishedBeforeClose(w, r)
+	r.Rule("R18.15", "the replay's result is the first error published on the wait-closer the parser reports its refusal to, read after the sender returned — never the sender's own result, which is nil when it found the unit channel closed", 1)
+	ruleReplayResultIsPublishedError(w, r)
 	r.Rule("R18.14", "the keys a unit is judged on are resolved from the command itself: a resolution keeps nothing of the command it resolved for a later one", 1)
 	ruleResolutionKeepsNothing(w, r)
 	r.Rule("R18.10", "the relaxed slot mode (forced slot 0, cross-slot accepted) is selected by 'the target is not a cluster' and nothing narrower", 1)
